@@ -514,6 +514,7 @@ def minimize_subcircuits(
                     )
                     circuit.get_gate(user)._operands = new_operands
                     circuit._gate_to_users[new_output].append(user)
+                circuit._gate_to_users[output] = []
                 circuit._outputs = [
                     new_output if x == output else x for x in circuit._outputs
                 ]
